@@ -1,4 +1,14 @@
-"""LINE-event service on top of sys.monitoring (PEP 669, Python 3.12).
+"""LINE-event and check-point service on top of sys.monitoring (PEP 669, Python 3.12).
+
+Check points are the instants at which CPython 3.12 can raise an asynchronous exception
+(KeyboardInterrupt from a signal) in Python code: the eval loop looks at pending signals only on
+function entry (RESUME), on backward jumps and after a call of a C function has returned - never
+at an arbitrary line start.  In particular it cannot raise at the NOP of a `try:` line (which no
+exception-table entry covers: an exception injected there would skip every enclosing handler and
+`finally`) nor on an `except X as e:` header.  Seen from labtech's code they are: entry of a labtech
+function (PY_START), a backward JUMP, C_RETURN of a C call made by labtech code, and the CALL of a
+Python function that is not labtech's own (the check happens at that function's entry; the exception
+surfaces at this call).
 
 One global callback; events outside labtech's own source files are disabled at
 their location after the first hit.  A per-run handler decides what a line
@@ -12,13 +22,17 @@ from __future__ import annotations
 
 import os
 import sys
+import threading
 
 from . import REPO_DIR
 
 TOOL_ID = 3
 _installed = False
 _handler = None
+_cp_handler = None
 _labtech_dir = None
+_nop_lines: dict = {}
+_loop_pending: set = set()
 _file_cache: dict[str, bool] = {}
 
 
@@ -33,10 +47,88 @@ def _is_labtech(filename: str) -> bool:
 def _callback(code, line):
     if not _is_labtech(code.co_filename):
         return sys.monitoring.DISABLE
+    if _loop_pending:
+        key = (threading.get_ident(), code)
+        if key in _loop_pending:
+            # the check point of a loop's back-edge, delivered at the loop header it jumped to (an exception
+            # raised from a JUMP callback itself is not seen by any handler or finally - a CPython 3.12 quirk)
+            _loop_pending.discard(key)
+            c = _cp_handler
+            if c is not None:
+                c(code, 'loop')
     h = _handler
     if h is None:
         return None
     return h(code, line)
+
+
+def _cb_start(code, offset):
+    if not _is_labtech(code.co_filename):
+        return sys.monitoring.DISABLE
+    h = _cp_handler
+    if h is not None:
+        return h(code, 'entry')
+    return None
+
+
+def _cb_jump(code, offset, dest):
+    if not _is_labtech(code.co_filename):
+        return sys.monitoring.DISABLE
+    if _cp_handler is not None and dest < offset:
+        _loop_pending.add((threading.get_ident(), code))
+    return None
+
+
+_C_TYPES = None
+
+
+def _is_c_callable(f) -> bool:
+    global _C_TYPES
+    if _C_TYPES is None:
+        import types
+        _C_TYPES = (types.BuiltinFunctionType, types.BuiltinMethodType, types.MethodDescriptorType, types.WrapperDescriptorType,
+                    types.MethodWrapperType, types.ClassMethodDescriptorType)
+    return isinstance(f, _C_TYPES)
+
+
+def _cb_call(code, offset, func, arg0):
+    if not _is_labtech(code.co_filename):
+        return sys.monitoring.DISABLE
+    h = _cp_handler
+    if h is None or _is_c_callable(func):
+        return None          # C callee: the check point is its return (C_RETURN)
+    c = getattr(func, '__code__', None)
+    if c is None:
+        f2 = getattr(func, '__func__', None)
+        c = getattr(f2, '__code__', None)
+    if c is not None and _is_labtech(c.co_filename):
+        return None          # labtech callee: its own entry is the check point
+    return h(code, 'call')
+
+
+def _cb_c_return(code, offset, func, arg0):
+    if not _is_labtech(code.co_filename):
+        return None
+    h = _cp_handler
+    if h is not None:
+        return h(code, 'c-return')
+    return None
+
+
+def starts_with_nop(code, line: int) -> bool:
+    """Is the first instruction of this line a NOP (`try:` and the like)?  No exception can be raised
+    there, and no exception-table entry covers it."""
+    key = (code, line)
+    r = _nop_lines.get(key)
+    if r is None:
+        import dis
+        r = False
+        for ins in dis.get_instructions(code):
+            if ins.starts_line == line:
+                r = ins.opname == 'NOP'
+                break
+        _nop_lines[key] = r
+    return r
 
 
 def install() -> None:
@@ -48,6 +140,10 @@ def install() -> None:
     mon = sys.monitoring
     mon.use_tool_id(TOOL_ID, 'simlab')
     mon.register_callback(TOOL_ID, mon.events.LINE, _callback)
+    mon.register_callback(TOOL_ID, mon.events.PY_START, _cb_start)
+    mon.register_callback(TOOL_ID, mon.events.JUMP, _cb_jump)
+    mon.register_callback(TOOL_ID, mon.events.CALL, _cb_call)
+    mon.register_callback(TOOL_ID, mon.events.C_RETURN, _cb_c_return)
     _installed = True
 
 
@@ -56,17 +152,28 @@ def labtech_dir() -> str:
     return _labtech_dir
 
 
-def start(handler) -> None:
-    """Arm LINE events with the given handler(code, line)."""
-    global _handler
+def start(handler, cp_handler=None) -> None:
+    """Arm LINE events with handler(code, line) and, if given, check-point events with
+    cp_handler(code, kind)."""
+    global _handler, _cp_handler
     install()
     _handler = handler
-    sys.monitoring.set_events(TOOL_ID, sys.monitoring.events.LINE)
+    _cp_handler = cp_handler
+    ev = sys.monitoring.events
+    mask = ev.LINE
+    if cp_handler is not None:
+        mask |= ev.PY_START | ev.JUMP | ev.CALL
+    sys.monitoring.set_events(TOOL_ID, mask)
+    if cp_handler is not None:
+        # locations disabled by an earlier run (another handler set) must be seen again
+        sys.monitoring.restart_events()
 
 
 def stop() -> None:
-    global _handler
+    global _handler, _cp_handler
     _handler = None
+    _cp_handler = None
+    _loop_pending.clear()
     if _installed:
         sys.monitoring.set_events(TOOL_ID, 0)
 
